@@ -5,10 +5,12 @@ patch="$1"; shift
 cd /verif
 if ! git -C /repo apply --check "$patch" 2>/dev/null; then echo "PATCH DOES NOT APPLY: $patch"; exit 3; fi
 git -C /repo apply "$patch"
+evbak=$(mktemp -d); cp -a /verif/evidence/. "$evbak"/   # evidence of mutant runs is not evidence: restored afterwards
 for id in "$@"; do
   out=$(./check "$id" ${TIER:-quick} 2>&1); rc=$?
   echo "[$id] exit=$rc $(echo "$out" | grep -E 'signature:' | head -3 | tr '\n' ' ')"
 done
 git -C /repo checkout -- .
+cp -a "$evbak"/. /verif/evidence/; rm -rf "$evbak"
 find /verif/replays -name '*.json' -delete
 git -C /repo status --short
